@@ -115,22 +115,43 @@ def theorem_at(relfile_line):
     return relfile_line
 
 
-def forbidden_hits():
-    """sorry/admit/axiom/native_decide/... outside comments in the Lean sources"""
+def import_closure(modules):
+    """the project files (NixModel.*, Driver.*) reachable by `import` from the given modules"""
+    seen, todo = set(), list(modules)
+    while todo:
+        m = todo.pop()
+        if m in seen or not (m.startswith("NixModel") or m.startswith("Driver")):
+            continue
+        path = os.path.join(LEAN, m.replace(".", "/") + ".lean")
+        if not os.path.exists(path):
+            continue
+        seen.add(m)
+        for l in open(path, encoding="utf-8").read().split("\n"):
+            mm = re.match(r"\s*(?:public\s+)?import\s+(\S+)", l)
+            if mm:
+                todo.append(mm.group(1))
+    return sorted(seen)
+
+
+def forbidden_hits(modules=None):
+    """sorry/admit/axiom/native_decide/... outside comments in the Lean sources of the import
+    closure of `modules` (every project file when None)"""
     hits = []
-    for root in (os.path.join(LEAN, "NixModel"), os.path.join(LEAN, "Driver")):
-        for dp, _, fns in os.walk(root):
-            for fn in fns:
-                if not fn.endswith(".lean"):
-                    continue
-                p = os.path.join(dp, fn)
-                txt = open(p, encoding="utf-8").read()
-                txt = re.sub(r"/-.*?-/", lambda m: "\n" * m.group(0).count("\n"), txt, flags=re.S)
-                for i, l in enumerate(txt.split("\n"), 1):
-                    l = re.sub(r"--.*$", "", l)
-                    l = re.sub(r'"(?:[^"\\]|\\.)*"', '""', l)
-                    if FORBIDDEN.search(l):
-                        hits.append("%s:%d: %s" % (os.path.relpath(p, LEAN), i, l.strip()[:80]))
+    if modules is None:
+        files = []
+        for root in (os.path.join(LEAN, "NixModel"), os.path.join(LEAN, "Driver")):
+            for dp, _, fns in os.walk(root):
+                files += [os.path.join(dp, fn) for fn in fns if fn.endswith(".lean")]
+    else:
+        files = [os.path.join(LEAN, m.replace(".", "/") + ".lean") for m in import_closure(modules)]
+    for p in sorted(files):
+        txt = open(p, encoding="utf-8").read()
+        txt = re.sub(r"/-.*?-/", lambda m: "\n" * m.group(0).count("\n"), txt, flags=re.S)
+        for i, l in enumerate(txt.split("\n"), 1):
+            l = re.sub(r"--.*$", "", l)
+            l = re.sub(r'"(?:[^"\\]|\\.)*"', '""', l)
+            if FORBIDDEN.search(l):
+                hits.append("%s:%d: %s" % (os.path.relpath(p, LEAN), i, l.strip()[:80]))
     return hits
 
 
